@@ -320,3 +320,30 @@ example :
     let r := clearR S 60 rs1 (.decl 0)
     r.2 = .ok () ∧ (r.1.st.m (.decl 0)).maps = [] ∧ (r.1.st.m (.anon 0)).parent = none ∧
     (r.1.st.h 5).parent = some (.anon 0) := by decide +kernel
+
+/-- **Back-links and one kind per name in trees built by the populator.**  The populator model
+(`Desper.Pop.populate`, C16) builds every map and handle through this model's `setItem`; whenever a
+population — any rules, any listings, any options — of a tree satisfying the invariant (the empty
+map does, `PopInv_init`; every earlier population keeps it) completes, every sub-map entry and every
+handle in every layer of the resulting tree records its container and its name (maps made for
+directories and for intermediate key parts included), and no name is both a sub-map and a handle. -/
+theorem C11_populated_backlinks (ps ps' : Desper.Pop.PSt) (n : Nat) (nest trim : Bool)
+    (rules : List (Desper.Pop.Rule × Desper.Pop.Status))
+    (hi : Desper.Pop.PopInv ps n) (hn : Desper.Pop.AllNamesOk rules)
+    (hok : Desper.Pop.populate ps (.decl n) nest trim rules = (ps', .ok)) :
+    (∀ i k c, Dict.get? (ps'.tree.m i).maps k = some c →
+      (ps'.tree.m c).parent = some i ∧ (ps'.tree.m c).key = some k) ∧
+    (∀ i l k g, l ∈ (ps'.tree.m i).layers → Dict.get? l k = some g →
+      (ps'.tree.h g).parent = some i ∧ (ps'.tree.h g).key = some k) ∧
+    (∀ i k, Dict.get? (ps'.tree.m i).maps k ≠ none → ∀ l ∈ (ps'.tree.m i).layers, Dict.get? l k = none) := by
+  have inv := (Desper.Pop.populate_inv_persist ps n nest trim rules hi hn ps' hok).1
+  refine ⟨inv.links.maps, inv.links.handles, fun i k hk => ?_⟩
+  have := inv.one i k hk
+  rwa [chainGet_none] at this
+
+example :
+    let rule : Desper.Pop.Rule := { dir := ["r"], factory := 0, args := "-", exts := [] }
+    let l : List Desper.Pop.Entry := [(["r"], true), (["r", "a1"], true), (["r", "a1", "x.txt"], false)]
+    let ps1 := (Desper.Pop.populate {} (.decl 0) true false [(rule, .dir l)]).1
+    (ps1.tree.m (.anon 1)).parent = some (.anon 0) ∧ (ps1.tree.m (.anon 0)).parent = some (.decl 0) ∧
+    (ps1.tree.h 0).parent = some (.anon 1) := by decide
